@@ -370,6 +370,15 @@ class SerStream:
             v, t = self.ev(e[1], env)
             if t == 'enc':
                 return (v, 'arr')
+        if k == 'field' and e[2] == 'inner' and getattr(self, 'allow_raw', False):
+            # the stored curve point (or anything read off it): an uninterpreted function `raw` of the element
+            v, t = self.ev(e[1], env)
+            if t == 'elem':
+                return ('(raw %s)' % v, 'arr')
+        if k == 'field' and e[2] in ('x', 'y', 'z', 't') and getattr(self, 'allow_raw', False):
+            v, t = self.ev(e[1], env)
+            if t == 'arr' and v.startswith('(raw '):
+                return (v, 'arr')
         if k == 'index' and e[2] == ('fullrange',):
             v, t = self.ev(e[1], env)
             if t == 'arr':
@@ -614,8 +623,10 @@ def main():
                 if h is None:
                     raise Untranslatable('no hash method')
                 f, body = h
-                v = SerStream().run(StreamParser(tokenize(body)).block(), {'self': ('e', 'elem'), f.group(1): ('st', 'hasher')})
-                hashes.append((label, 'fun enc e => %s' % v))
+                ss = SerStream()
+                ss.allow_raw = True
+                v = ss.run(StreamParser(tokenize(body)).block(), {'self': ('e', 'elem'), f.group(1): ('st', 'hasher')})
+                hashes.append((label, 'fun enc raw e => %s' % v))
                 report['forms'].setdefault(rel, 0)
                 report['forms'][rel] += 1
             except (Untranslatable, IndexError, KeyError, TypeError) as ex:
@@ -650,8 +661,8 @@ def main():
     parts.append('def serElementForms : List (String × ((α → List Nat) → Bool → α → Except SerErr (List Nat))) := [')
     parts.append(',\n'.join('  ("%s", %s)' % (l, f) for l, f in sers['serElement']))
     parts.append(']\n')
-    parts.append('/-- `Hash for Element | AffinePoint`: what is fed to the hasher, over the encoder `enc` (`.0` of an encoding is its bytes) -/')
-    parts.append('def hashForms {β : Type} : List (String × ((α → β) → α → β)) := [')
+    parts.append('/-- `Hash for Element | AffinePoint`: what is fed to the hasher, over the encoder `enc` (`.0` of an encoding is its bytes) and an\nuninterpreted reading `raw` of the stored curve point (`self.inner` and its coordinates) -/')
+    parts.append('def hashForms {β : Type} : List (String × ((α → β) → (α → β) → α → β)) := [')
     parts.append(',\n'.join('  ("%s", %s)' % (l, f) for l, f in hashes))
     parts.append(']\n')
     if report['untranslated']:
